@@ -6,6 +6,7 @@ import (
 	"net/http"
 	"net/url"
 	"strings"
+	"sync"
 	"time"
 
 	"github.com/goccy/go-json"
@@ -20,6 +21,10 @@ type MetadataEndpoint struct {
 	endpoint.Endpoint `mapstructure:",squash"`
 
 	DisableIssuerIdentifierVerification bool `mapstructure:"disable_issuer_identifier_verification"`
+
+	// the same instance is used by all requests (and all rule specific
+	// variants of a mechanism). So, the defaults must be applied only once
+	initOnce sync.Once
 }
 
 func (e *MetadataEndpoint) init() {
@@ -41,7 +46,7 @@ func (e *MetadataEndpoint) init() {
 }
 
 func (e *MetadataEndpoint) Get(ctx context.Context, args map[string]any) (ServerMetadata, error) {
-	e.init()
+	e.initOnce.Do(e.init)
 
 	req, err := e.CreateRequest(ctx, nil, endpoint.RenderFunc(func(value string) (string, error) {
 		tpl, err := template.New(value)
